@@ -128,3 +128,7 @@ Proof.
   - intros H. apply mem_In. unfold table_values in H. cbn [In] in H.
     destruct H as [H|[H|[H|[H|[H|[H|[H|[]]]]]]]]; subst y; vm_compute; reflexivity.
 Qed.
+
+Print Assumptions table_small_order.
+Print Assumptions small_order_ys_sound.
+Print Assumptions table_complete.
